@@ -58,12 +58,25 @@ type Packet struct {
 }
 
 func (p Packet) Data() []byte {
-	if p.ICS == nil {
+	// Raw, when set, is what travels: with ICS set as well it is another writing of the same ICS-20 data (escapes,
+	// key order, white space) and ICS is what every ICS-20 decoder reads out of it
+	if p.ICS == nil || p.Raw != nil {
 		return p.Raw
 	}
 	d := transfertypes.FungibleTokenPacketData{Denom: p.ICS.Denom, Amount: p.ICS.Amount, Sender: p.ICS.Sender,
 		Receiver: p.ICS.Receiver, Memo: p.ICS.Memo}
 	return d.GetBytes()
+}
+
+// WireAgrees tells whether ibc-go's own decoder reads exactly the ICS view out of the raw bytes (or refuses them
+// when there is no ICS view).
+func (p Packet) WireAgrees() bool {
+	var d transfertypes.FungibleTokenPacketData
+	err := transfertypes.ModuleCdc.UnmarshalJSON(p.Data(), &d)
+	if p.ICS == nil {
+		return err != nil
+	}
+	return err == nil && d.Denom == p.ICS.Denom && d.Amount == p.ICS.Amount && d.Sender == p.ICS.Sender && d.Receiver == p.ICS.Receiver && d.Memo == p.ICS.Memo
 }
 
 // Msg is an admin message of the orbiter module.
@@ -158,6 +171,7 @@ type Op struct {
 	Plan     []bool // recv/msg: fault plan (nil: none)
 	PanicAt  int    // recv: the PanicAt-th external call panics (0: none)
 	From     sdk.AccAddress // send: the sender (deposit and send: To is the recipient)
+	EscrowChan string       // deposit: To is the escrow account of this destination channel
 	Lie      int64
 	Msg      Msg
 	Q        Query
@@ -498,6 +512,8 @@ type OpObs struct {
 	Trace    []Call
 	Natural  []bool
 	AppPanic bool
+	// RefusedWrote: a message handler returned an error but had already changed the module state of its context
+	RefusedWrote string
 	// ExtPanic: the injected panic of an external call happened (Op.PanicAt within the calls the packet makes)
 	ExtPanic bool
 	Entered  bool // recv: the orbiter middleware was reached (blockibc in front of it did not refuse the packet)
@@ -675,27 +691,39 @@ func (w *W) RunOp(ctx sdk.Context, op Op) (o OpObs) {
 		// instrumented, on a branch that is discarded
 		rec := w.In.With(op.Plan, 0, func() {
 			cctx, _ := ctx.CacheContext()
+			var herr error
 			func() {
-				defer func() { recover() }()
+				defer func() {
+					if r := recover(); r != nil {
+						herr = nil // a panic is judged on the router path below
+					}
+				}()
 				switch x := m.(type) {
 				case *forwardertypes.MsgPauseProtocol:
-					_, _ = w.In.FwdMsg.PauseProtocol(cctx, x)
+					_, herr = w.In.FwdMsg.PauseProtocol(cctx, x)
 				case *forwardertypes.MsgUnpauseProtocol:
-					_, _ = w.In.FwdMsg.UnpauseProtocol(cctx, x)
+					_, herr = w.In.FwdMsg.UnpauseProtocol(cctx, x)
 				case *forwardertypes.MsgPauseCrossChains:
-					_, _ = w.In.FwdMsg.PauseCrossChains(cctx, x)
+					_, herr = w.In.FwdMsg.PauseCrossChains(cctx, x)
 				case *forwardertypes.MsgUnpauseCrossChains:
-					_, _ = w.In.FwdMsg.UnpauseCrossChains(cctx, x)
+					_, herr = w.In.FwdMsg.UnpauseCrossChains(cctx, x)
 				case *forwardertypes.MsgReplaceDepositForBurn:
-					_, _ = w.In.FwdMsg.ReplaceDepositForBurn(cctx, x)
+					_, herr = w.In.FwdMsg.ReplaceDepositForBurn(cctx, x)
 				case *executortypes.MsgPauseAction:
-					_, _ = w.In.ExecMsg.PauseAction(cctx, x)
+					_, herr = w.In.ExecMsg.PauseAction(cctx, x)
 				case *executortypes.MsgUnpauseAction:
-					_, _ = w.In.ExecMsg.UnpauseAction(cctx, x)
+					_, herr = w.In.ExecMsg.UnpauseAction(cctx, x)
 				case *adaptertypes.MsgUpdateParams:
-					_, _ = w.In.AdptMsg.UpdateParams(cctx, x)
+					_, herr = w.In.AdptMsg.UpdateParams(cctx, x)
 				}
 			}()
+			if herr != nil {
+				// a handler that refuses must not have written to the context it ran on (baseapp would drop the write,
+				// but the handler's own contract - and any caller that is not baseapp - relies on it)
+				if got := w.ObserveState(cctx); !got.V().Equal(o.Before.State.V()) {
+					o.RefusedWrote = "the handler returned an error (" + herr.Error() + ") after writing to its context"
+				}
+			}
 		})
 		o.Trace, o.Natural = rec.Trace, rec.Natural
 		// the application's own message router, with baseapp's per-message cache
@@ -725,6 +753,11 @@ func (w *W) RunOp(ctx sdk.Context, op Op) (o OpObs) {
 			o.MsgErr = err.Error()
 		} else {
 			o.MsgOK = true
+			if op.EscrowChan != "" {
+				// the deposit funds a channel escrow: ibc-go also keeps the total it has escrowed per denomination
+				cur := w.S.App.TransferKeeper.GetTotalEscrowForDenom(ctx, op.Denom)
+				w.S.App.TransferKeeper.SetTotalEscrowForDenom(ctx, cur.Add(coins[0]))
+			}
 		}
 	case "send":
 		// a user's bank MsgSend through the application's message router, with baseapp's per-message cache
